@@ -344,7 +344,21 @@ def run(prog, rep, tier):
             r2.ok("validate: state is Valid / Invalid / NotFound exactly as the emptiness of matched / unmatched_asn / unmatched_length says (%d / %d / %d paths)" % (seen["Valid"], seen["Invalid"], seen["NotFound"]))
         elif not bad:
             r2.unanalysable("validate: Valid/Invalid/NotFound results found on %d/%d/%d paths" % (seen["Valid"], seen["Invalid"], seen["NotFound"]), fv.loc())
-    # origin derivation
+    # origin derivation: the route's origin AS is as_path_origin() of its AS_PATH, else the *local* AS of the session (a route
+    # without an AS_SEQUENCE tail originates here); the neighbour's AS is never the fallback
+    flds_ = set()
+    for b in bodies:
+        for bi_ in b.live:
+            for st_ in b.blocks[bi_]["s"]:
+                if "rv" in st_:
+                    flds_ |= {x for x in expr_fields(Renderer(b, depth=4).rvalue(st_["rv"], 4)) if x in ("remote_asn", "local_asn")}
+    if "remote_asn" in flds_:
+        r2.fail(fv.name, "origin-fallback", "validate reads Source.remote_asn: a route whose AS_PATH has no AS_SEQUENCE tail (or no AS_PATH) originates at the local AS; comparing the "
+                "neighbour's AS instead turns Invalid routes into Valid ones on eBGP sessions", fv.loc())
+    elif "local_asn" in flds_:
+        r2.ok("origin AS falls back to the session's local AS")
+    else:
+        r2.unanalysable("validate: no fallback origin AS (Source.local_asn) read", fv.loc())
     toks = {c for b in bodies for c in sum(([n for n in callee_names(t)] for _, t in b.calls()), [])}
     if any(c.endswith("Attribute::as_path_origin") for c in toks):
         r2.ok("origin AS derived with Attribute::as_path_origin")
@@ -395,6 +409,43 @@ def check_vrp_identity(prog, r3):
             r3.ok("%s compares %s" % (m, sorted(sets[m])))
         else:
             r3.fail("rustybgp_table::RpkiTable::" + m, "identity-fields", "%s identifies a VRP by %s; the set key is (cache, max-length, AS) = %s" % (m, sorted(sets[m]), sorted(want)), "table/src/lib.rs")
+    # RpkiTable::remove keeps every VRP except the one named: the retain closure returns false exactly when cache identity,
+    # max-length and AS all match (truth table over the three comparisons, whatever the boolean spelling)
+    from .. import predicates
+    rk_ = prog.one(r"rustybgp_table::RpkiTable::remove")
+    clos = [c for c in prog.with_closures(rk_) if c != rk_ and any(re.search(r"Arc::<T, A>::ptr_eq$", x["f"].get("name", "")) for x in prog.ix[c]["calls"])]
+
+    def cls_id(e, labels, fvx):
+        lab = set(labels)
+        if len(lab) != 1 or not lab <= {"true", "false"}:
+            return None
+        t_ = lab == {"true"}
+        if e[0] == "call" and e[1].endswith("Arc::<T, A>::ptr_eq"):
+            return ("same_cache", t_)
+        if e[0] == "bin" and e[1] in ("Eq", "Ne"):
+            fl = set(expr_fields(e))
+            if "max_length" in fl:
+                return ("same_maxlen", t_ == (e[1] == "Eq"))
+            if "as_number" in fl:
+                return ("same_as", t_ == (e[1] == "Eq"))
+        return None
+    if len(clos) != 1:
+        r3.unanalysable("RpkiTable::remove: expected one closure comparing the VRP identity, found %d" % len(clos))
+    else:
+        rws, cv = predicates.rows(prog, clos[0], cls_id)
+        if rws is None:
+            r3.unanalysable("RpkiTable::remove: retain predicate has too many paths", cv.loc())
+        else:
+            bad = predicates.counterexamples(rws, ["same_cache", "same_maxlen", "same_as"], lambda v: not (v["same_cache"] and v["same_maxlen"] and v["same_as"]))
+            unk = sorted({u for f_, res_, us in rws for u in us})
+            if unk:
+                r3.unanalysable("RpkiTable::remove: retain predicate has conditions that are not identity comparisons: %s" % [u[0] for u in unk][:2], cv.loc())
+            elif bad:
+                kind, v, res_ = bad[0]
+                r3.fail("rustybgp_table::RpkiTable::remove", "retain-predicate", "a VRP with (same cache, same max-length, same AS) = (%s, %s, %s) is %s by the withdrawal of another: only the VRP that "
+                        "matches on all three may go" % (v.get("same_cache"), v.get("same_maxlen"), v.get("same_as"), "kept" if res_ else "removed") if kind == "mismatch" else "a path's result could not be read", cv.loc())
+            else:
+                r3.ok("remove: the retain predicate drops exactly the VRP that matches on cache identity, max-length and AS (%d paths)" % len(rws))
     # drop_source matches by the same source identity
     dk = prog.one(r"rustybgp_table::RpkiTable::drop_source")
     dfv = view(prog, dk)
